@@ -1,4 +1,196 @@
-import Casm.Model.Assemble
+import Casm.Proofs.IterModel
+/-!
+# C02 — a successful result is a genuine fixed point, never a stale guess
+
+About `Casm.assemble` (model of `asm::assemble`, tied to the implementation by the `asm`
+correspondence stream and, per successful run, by the `cert` certificate computed on the
+implementation's own final state).
+
+* `success_is_confirmed` — whenever assembly succeeds, under any budget, the emitted bits,
+  spans and symbol values were read from a state `d` produced by a pass in which guessing is
+  forbidden (`last = true`), in which every item compared equal to its previous value
+  (`stable = true`) and which reported nothing.
+* `unconfirmed_is_error` — if no such pass exists the outcome is an error, and an error always
+  carries a message (`error_has_message`).
+* `nonfirst_stable_pass_is_identity` (Props/C02 part 2, in `Casm.Proofs.StableId`) — such a pass does not change the
+  state, so `d` is a fixed point of the strict pass: recomputing every item from the final
+  values gives the final values.
+-/
 namespace Casm.C02
-theorem placeholder : True := trivial
+
+/-- the state `d` comes out of a strict, stable pass whose messages are `r` -/
+def ConfirmedBy (st : Static) (nodes : List AstNode) (d : Defs) (r : List String) : Prop :=
+  ∃ d0 f, resolveOnce st nodes f true d0 = .ok (d, true, r)
+
+/-- **every successful iteration ends with a strict stable pass**, whatever the budget -/
+theorem iteration_confirmed (st : Static) (nodes : List AstNode) (max : Nat) (d0 : Defs) (k : Nat) (d : Defs) (rep : List String)
+    (h : resolveIterativelyN st nodes max d0 = .ok (k, d, rep)) :
+    ∃ r pre, ConfirmedBy st nodes d r ∧ rep = pre ++ r := by
+  unfold resolveIterativelyN at h
+  cases hl : iterLoop st nodes max max 0 d0 [] with
+  | error e => rw [hl] at h; cases h
+  | ok x =>
+    obtain ⟨i, d1, rep1, fin⟩ := x
+    rw [hl] at h
+    cases fin with
+    | true =>
+      simp only at h
+      injection h with h; injection h with h1 h; injection h with h2 h3
+      subst h1 h2 h3
+      obtain ⟨da, f, r, pre, hp, hr⟩ := iterLoop_fin st nodes max _ _ _ _ _ _ _ hl
+      exact ⟨r, pre, ⟨da, f, hp⟩, hr⟩
+    | false =>
+      simp only at h
+      cases hp : resolveOnce st nodes false true d1 with
+      | error e => rw [hp] at h; cases e; cases h
+      | ok y =>
+        obtain ⟨d2, stable, r⟩ := y
+        rw [hp] at h
+        cases stable with
+        | true =>
+          simp only [if_true] at h
+          injection h with h; injection h with h1 h; injection h with h2 h3
+          subst h1 h2 h3
+          exact ⟨r, rep1, ⟨d1, false, hp⟩, rfl⟩
+        | false => simp at h
+
+/-- a silent iteration was confirmed by a silent pass -/
+theorem silent_iteration_confirmed (st : Static) (nodes : List AstNode) (max : Nat) (d0 : Defs) (k : Nat) (d : Defs)
+    (h : resolveIterativelyN st nodes max d0 = .ok (k, d, [])) : ConfirmedBy st nodes d [] := by
+  obtain ⟨r, pre, hc, hr⟩ := iteration_confirmed st nodes max d0 k d [] h
+  have : r = [] := by
+    cases pre with
+    | nil => simpa using hr.symm
+    | cons a t => simp at hr
+  rw [this] at hc; exact hc
+
+/-- what a successful `assemble` returns, in terms of the final state `d` -/
+structure ReadFrom (st : Static) (nodes : List AstNode) (d : Defs) (res : AsmOk) : Prop where
+  bits : ∃ bst, buildLoop d.banks ⟨initIter d.banks, fillBanks d.banks [], [], []⟩ (outputItems st d nodes) = .ok bst ∧
+    res.bits = bst.out ∧ res.spans = bst.spans
+  symbols : res.symbols = symbolListing st.decls d
+
+/-- **C02, success side.** Whenever assembly succeeds — any program, any budget, any
+    optimisation switches — there is a final state `d` from which bits, spans and symbols are
+    read, and `d` was produced by a strict (`last`), stable, silent pass. -/
+theorem success_is_confirmed (opts : Opts) (fs : SrcFiles) (roots : List (List Char)) (res : AsmOk)
+    (h : assemble opts fs roots = .ok res) :
+    ∃ st nodes defs0 d, frontEnd opts fs roots = .ok (st, nodes, defs0) ∧
+      ConfirmedBy st nodes d [] ∧ ReadFrom st nodes d res := by
+  unfold assemble at h
+  cases hf : frontEnd opts fs roots with
+  | error e => rw [hf] at h; cases h
+  | ok x =>
+    obtain ⟨st, nodes, defs0⟩ := x
+    rw [hf] at h
+    simp only at h
+    cases hr : resolveIteratively st nodes defs0 with
+    | error e => rw [hr] at h; cases h
+    | ok y =>
+      obtain ⟨iters, d, rep⟩ := y
+      rw [hr] at h
+      simp only at h
+      cases rep with
+      | cons a t => simp at h
+      | nil =>
+        refine ⟨st, nodes, defs0, d, rfl, silent_iteration_confirmed st nodes _ defs0 iters d hr, ?_⟩
+        simp only [List.isEmpty_nil, Bool.not_true, Bool.false_eq_true, if_false] at h
+        split at h
+        · cases h
+        · split at h
+          · cases h
+          · split at h
+            · cases h
+            · rename_i bst hb
+              injection h with h
+              subst h
+              exact ⟨⟨bst, hb, rfl, rfl⟩, rfl⟩
+
+/-- **C02, failure side.** If no strict, stable, silent pass exists for the program (no
+    consistent state can be confirmed), the outcome is an error, not output. -/
+theorem unconfirmed_is_error (opts : Opts) (fs : SrcFiles) (roots : List (List Char))
+    (h : ∀ st nodes defs0 d, frontEnd opts fs roots = .ok (st, nodes, defs0) → ¬ ConfirmedBy st nodes d []) :
+    ∃ msgs, assemble opts fs roots = .error msgs := by
+  cases ha : assemble opts fs roots with
+  | error msgs => exact ⟨msgs, rfl⟩
+  | ok res =>
+    obtain ⟨st, nodes, defs0, d, hf, hc, _⟩ := success_is_confirmed opts fs roots res ha
+    exact absurd hc (h st nodes defs0 d hf)
+
+theorem iterLoop_error_nonempty (st : Static) (nodes : List AstNode) (max : Nat) :
+    ∀ fuel i d rep msgs, iterLoop st nodes max fuel i d rep = .error msgs → msgs ≠ [] := by
+  intro fuel
+  induction fuel with
+  | zero => intro i d rep msgs h; simp [iterLoop] at h
+  | succ n ih =>
+    intro i d rep msgs h
+    simp only [iterLoop] at h
+    split at h
+    · cases h
+    · split at h
+      · injection h with h; subst h; simp
+      · split at h
+        · split at h <;> cases h
+        · split at h
+          · injection h with h; subst h; simp
+          · exact ih _ _ _ _ h
+
+theorem frontEnd_error_nonempty (opts : Opts) (fs : SrcFiles) (roots : List (List Char)) (msgs : List String)
+    (h : frontEnd opts fs roots = .error msgs) : msgs ≠ [] := by
+  unfold frontEnd at h
+  split at h
+  · injection h with h; subst h; simp
+  · split at h
+    · injection h with h; subst h; simp
+    · simp only at h
+      split at h
+      · injection h with h; subst h; simp
+      · split at h
+        · injection h with h; subst h; simp
+        · split at h
+          · injection h with h; subst h; simp
+          · split at h
+            · rename_i hne; injection h with h; subst h; intro hc; simp [hc] at hne
+            · cases h
+
+/-- an error is never silent -/
+theorem error_has_message (opts : Opts) (fs : SrcFiles) (roots : List (List Char)) (msgs : List String)
+    (h : assemble opts fs roots = .error msgs) : msgs ≠ [] := by
+  unfold assemble at h
+  cases hf : frontEnd opts fs roots with
+  | error e =>
+    rw [hf] at h; injection h with h; subst h
+    exact frontEnd_error_nonempty opts fs roots e hf
+  | ok x =>
+    obtain ⟨st, nodes, defs0⟩ := x
+    rw [hf] at h
+    simp only at h
+    cases hr : resolveIteratively st nodes defs0 with
+    | error e =>
+      rw [hr] at h; injection h with h; subst h
+      unfold resolveIteratively resolveIterativelyN at hr
+      split at hr
+      · rename_i hl; injection hr with hr; subst hr; exact iterLoop_error_nonempty _ _ _ _ _ _ _ _ hl
+      · cases hr
+      · split at hr
+        · injection hr with hr; subst hr; simp
+        · split at hr
+          · cases hr
+          · injection hr with hr; subst hr; simp
+    | ok y =>
+      obtain ⟨iters, d, rep⟩ := y
+      rw [hr] at h
+      simp only at h
+      cases rep with
+      | cons a t => simp at h; subst h; simp
+      | nil =>
+        simp only [List.isEmpty_nil, Bool.not_true, Bool.false_eq_true, if_false] at h
+        split at h
+        · injection h with h; subst h; simp
+        · split at h
+          · rename_i hu; injection h with h; subst h; intro hc; simp [hc] at hu
+          · split at h
+            · injection h with h; subst h; simp
+            · cases h
+
 end Casm.C02
